@@ -40,16 +40,20 @@ using ref::Q;
 
 // ------------------------------------------------------------------ calibrated tolerances
 // error measure: max-abs difference / max(1, max-abs reference entry) of the whole output.
-// tolerance = max(100 x worst observed over the thorough tier (seeds 0..3), 64 eps); observed worst in the comment.
+// tolerance = max(100 x worst observed, 64 eps), worst taken over the thorough tier with alphabet menus (seeds) 0..3 on
+// /repo at 35338b8 (pinned snapshot + the five numerical fix: commits); observed worst given next to each constant.
+// The worst cases are all K >= 4 (mostly 6), mostly the Bernstein matrix at u = 1-1e-9, SE3d / SE2d, tuples made of the two
+// O(1) differences (the outputs are sums of K Ad-transported terms with large basis derivatives that partly cancel).
+// Mutants (see report) produce errors of 1..6, i.e. >= 1e7 x the loosest tolerance.
 struct Tol
 {
-  static constexpr double value = 1e-6;  // CALIB
-  static constexpr double vel   = 1e-6;  // CALIB
-  static constexpr double acc   = 1e-6;  // CALIB
-  static constexpr double jer   = 1e-6;  // CALIB
-  static constexpr double dg    = 1e-6;  // CALIB
-  static constexpr double dvel  = 1e-6;  // CALIB
-  static constexpr double dacc  = 1e-6;  // CALIB
+  static constexpr double value = 7e-13;    // observed 6.2e-15 (gs value, SE3d K5)
+  static constexpr double vel   = 3.5e-11;  // observed 3.3e-13 (vs/gs vel, SE2d K6)
+  static constexpr double acc   = 1e-9;     // observed 8.1e-12 (gs acc, SE3d K6)
+  static constexpr double jer   = 1.5e-8;   // observed 1.25e-10 (gs jer, SE3d K6)
+  static constexpr double dg    = 6e-11;    // observed 5.2e-13 (dgs dg, SE3d K6)
+  static constexpr double dvel  = 2.5e-11;  // observed 2.1e-13 (dgs dvel, SE3d K6)
+  static constexpr double dacc  = 2.5e-11;  // observed 2.0e-13 (dvs dacc, SE3d K4)
 };
 
 // ------------------------------------------------------------------ G <-> reference
